@@ -82,13 +82,15 @@ pub fn convert_objects(
             };
 
             format!(
-                r#"{{"g":"catch_obj",{kind},"x":{},"t":{},"end":{},"hr":{hr_offsets},"nested":{},"last_pos":{},"last_t":{},"draws":{},"bit_idx":{}}}"#,
+                r#"{{"g":"catch_obj",{kind},"x":{},"t":{},"t_bits":{},"end":{},"hr":{hr_offsets},"nested":{},"last_pos":{},"last_t":{},"last_t_bits":{},"draws":{},"bit_idx":{}}}"#,
                 h.pos.x,
                 h.start_time as i32,
+                h.start_time.to_bits(),
                 h.end_time() as i32,
                 new_objects.len(),
                 last_pos.map_or_else(|| "null".to_owned(), |pos| pos.to_string()),
                 last_start_time as i32,
+                last_start_time.to_bits(),
                 rng.verif_draws,
                 rng.verif_bit_idx(),
             )
